@@ -273,7 +273,7 @@ PROPS["C02"] = dict(
 
 PROPS["C06"] = dict(
     suites=["c06", "c07"],
-    lean_modules=["ServlinVerif.Props.C06", "ServlinVerif.Props.C07"],
+    lean_modules=["ServlinVerif.Props.C06", "ServlinVerif.Props.C06RoundTrip", "ServlinVerif.Props.C07"],
     audit="Audit/C06.lean",
     rule="write_http_response(scripted writer): every status code 100..999 with rotating content types; 1200 (8000) random responses: all "
          "17 ContentType variants + custom, 0-20 extra fields over all tchar names / printable ASCII+HT values incl. names colliding "
@@ -286,6 +286,9 @@ PROPS["C06"] = dict(
     explanation="write_http_response modelled (head construction, duplicate guards, sized body via take(len), chunked body via C07's model, "
                 "writer failing at an offset). Theorems: C06_dup_refused (a colliding or second framing field => zero bytes written), "
                 "C06_head_shape (automatic fields and exactly one framing field, never both), C06_sized_body (Content-Length = bytes sent), "
+                "C06_parses_back (Props/C06RoundTrip.lean: for every status 100..999, every grammatical type / user fields and every body of "
+                "known length in any pieces, the strict parser accepts the written bytes and returns exactly code, automatic ++ user fields in "
+                "order with unchanged values, one content-length, no transfer-encoding, the body, nothing left over), "
                 "with C07_decode_encode for the chunked body. The oracle parses the real wire bytes with the strict parser and compares code, "
                 "fields in order and body.",
     trusted=["futures_lite write_all/flush; async_fs file reads (body source modelled as 'delivers these bytes / fails to open')",
@@ -293,10 +296,11 @@ PROPS["C06"] = dict(
     assumptions=["field values have no leading/trailing SP/HT (a strict parser strips OWS); names are tokens; values and content type are CR/LF-free ASCII"],
     level_text="Proof: theorems over every response, writer failure offset and body source that (1) a response colliding with an automatic or "
                "framing field writes zero bytes, (2) otherwise the head has the stated shape with exactly one framing field, (3) sized bodies "
-               "send exactly Content-Length bytes and chunked bodies decode to the source (C07). The full parse-back theorem for the head is "
-               "not proved in Lean; parse-back is checked on the implementation's real output by the strict parser on every run.",
+               "send exactly Content-Length bytes and chunked bodies decode to the source (C07), (4) C06_parses_back: the whole message with a "
+               "body of known length parses back under the strict parser to exactly what was given. For chunked bodies the parse-back is the "
+               "composition of C06_head_shape and C07_decode_encode and is additionally checked on the real output on every run.",
     level_note="Trusted: Lean kernel; hand-written model of write_http_response (modelled, not verified) tied by suite c06; RespParser is my "
-               "reading of RFC 7230 section 3. Partial: the head round-trip is an executable oracle on observed bytes, not a theorem.",
+               "reading of RFC 7230 section 3. Partial: the parse-back theorem covers bodies of known length; for chunked bodies head and body are proved separately.",
 )
 
 PROPS["C08"] = dict(
